@@ -34,10 +34,30 @@ def _via_parser(d):
     return P.OmniParser(grammar={"PVL": G.PVLGrammar, "ODL": G.ODLGrammar, "PDS3": G.PDSGrammar}[d]())
 
 
+def _loads_decoder_only(d, text):
+    """pvl.loads(text, decoder=D()) itself: the plumbing in pvl/__init__.py decides which grammar the text is lexed with"""
+    import pvl, warnings, pvl.decoder as D
+    from ..projection import project
+    dec = {"PVL": D.PVLDecoder, "ODL": D.ODLDecoder, "PDS3": D.PDSLabelDecoder}[d]()
+    try:
+        with loaders.watchdog(10), warnings.catch_warnings():
+            warnings.simplefilter("ignore")
+            m = pvl.loads(text, decoder=dec)
+        return {"kind": "module", "tree": project(m), "errors": list(getattr(m, "errors", []))}
+    except loaders.Hang:
+        return {"kind": "hang"}
+    except Exception as e:
+        return {"kind": "raise", "type": type(e).__name__, "documented": type(e).__name__ in ("LexerError", "ParseError"),
+                "pos": getattr(e, "pos", None), "lineno": getattr(e, "lineno", None), "colno": getattr(e, "colno", None), "msg": str(e)[:200]}
+
+
 def _load(job):
     d, text = job[0], job[1]
     via = job[2] if len(job) > 2 else None
-    obs = loaders.load(d, text, parser=_via_parser(via), parser_factory=lambda: _via_parser(via)) if via else loaders.load(d, text)
+    if via and via.startswith("dec:"):
+        obs = _loads_decoder_only(via[4:], text)
+    else:
+        obs = loaders.load(d, text, parser=_via_parser(via), parser_factory=lambda: _via_parser(via)) if via else loaders.load(d, text)
     ev = {"ev": "load", "d": d, "text": [ord(c) for c in text], "kind": obs["kind"], "type": obs.get("type", ""),
           "pos": -1, "lineno": -1, "colno": -1}
     if via:
